@@ -25,6 +25,7 @@ type universe struct {
 
 // Case is the replayable descriptor of one execution.
 type Case struct {
+	Other     [][]string    `json:"other_side_rules,omitempty"` // rules of the other side (two-sided cases): Side names the list in Rules
 	Rules     [][]string    `json:"rules"`
 	Side      string        `json:"side"`
 	Kind      string        `json:"kind"` // step | inspection
@@ -141,9 +142,9 @@ func execute(cs *Case) (accepted bool, errText string, panicked string) {
 	md := map[string]intoto.Metadata{"s": &intoto.Metablock{Signed: own}, "dst": &intoto.Metablock{Signed: dst}}
 	sci := intoto.SupplyChainItem{Name: "s"}
 	if cs.Side == "materials" {
-		sci.ExpectedMaterials = cs.Rules
+		sci.ExpectedMaterials, sci.ExpectedProducts = cs.Rules, cs.Other
 	} else {
-		sci.ExpectedProducts = cs.Rules
+		sci.ExpectedProducts, sci.ExpectedMaterials = cs.Rules, cs.Other
 	}
 	var item interface{}
 	if cs.Kind == "inspection" {
@@ -166,6 +167,12 @@ func execute(cs *Case) (accepted bool, errText string, panicked string) {
 func refVerdict(cs *Case, opt ref.RulesOpt) (ref.Verdict, string) {
 	own := ref.LinkArts{Materials: cs.Materials, Products: cs.Products}
 	links := map[string]ref.LinkArts{"s": own, "dst": {Materials: cs.DstMat, Products: cs.DstProd}}
+	if cs.Other != nil {
+		if cs.Side == "materials" {
+			return ref.Item(cs.Rules, cs.Other, own, links)
+		}
+		return ref.Item(cs.Other, cs.Rules, own, links)
+	}
 	return ref.Rules(cs.Rules, cs.Side, own, links, opt)
 }
 
@@ -246,6 +253,9 @@ func judge(cs *Case) (obs string, sig string, class string) {
 	}
 	if v, _ := refVerdict(cs, ref.RulesOpt{RawKeysForCMD: true}); v == got {
 		return obs, "C03|create-delete-modify|uncleaned-artifact-keys|" + dir, class
+	}
+	if cs.Other != nil {
+		return obs, "C03|verdict|" + dir + "|both-sides|materials=" + ref.RuleTypes(cs.Rules) + "|products=" + ref.RuleTypes(cs.Other), class
 	}
 	return obs, "C03|verdict|" + dir + "|side=" + cs.Side + "|rules=" + ref.RuleTypes(cs.Rules), class
 }
@@ -392,6 +402,56 @@ func run(c *mcx.Ctx) {
 			runCfg(ci, us, ls, []string{"step"})
 		}
 	}
+	// both rule lists of one item at once (each has its own queue; nothing may leak from one into the other),
+	// with a hash object under another algorithm name in the universe
+	{
+		two := [][]string{{"ALLOW", "a"}, {"ALLOW", "*"}, {"DISALLOW", "*"}, {"DISALLOW", "x"}, {"DISALLOW", "a"}, {"REQUIRE", "a"}, {"REQUIRE", "d/a"}, {"CREATE", "*"}, {"DELETE", "*"}, {"MODIFY", "*"},
+			{"MATCH", "*", "WITH", "PRODUCTS", "FROM", "dst"}, {"MATCH", "*", "WITH", "MATERIALS", "FROM", "s"}, {"MATCH", "*", "WITH", "PRODUCTS", "FROM", "s"}}
+		var l01, l012 [][][]string
+		l01 = append(l01, [][]string{})
+		for _, a := range two {
+			l01 = append(l01, [][]string{a})
+		}
+		l012 = append(l012, l01...)
+		for _, a := range two {
+			for _, b := range two {
+				l012 = append(l012, [][]string{a, b})
+			}
+		}
+		ut := universe{Paths: []string{"a", "d/a"}, Hashes: []ref.Hash{nil, {"sha256": "aa11"}, {"sha512": "cc33"}}}
+		c.Note("two_sided", fmt.Sprintf("materials list of length <= 1 x products list of length <= 2 over %d rules (%d x %d pairs), and the reverse, x paths %v with hash values absent / sha256 / sha512-only", len(two), len(l01), len(l012), ut.Paths))
+		per = 9
+		for ci := 0; ci < per*per*per; ci++ {
+			if !c.Mine(int64(ci)) {
+				continue
+			}
+			m, p, d := assign(ut, ci%per), assign(ut, (ci/per)%per), assign(ut, ci/per/per)
+			dp := swapHashes(d)
+			for _, ab := range [][2][][][]string{{l01, l012}, {l012, l01}} {
+				for _, lm := range ab[0] {
+					for _, lp := range ab[1] {
+						cs := Case{Rules: lm, Other: lp, Side: "materials", Kind: "step", Materials: m, Products: p, DstMat: d, DstProd: dp}
+						if cs.Other == nil {
+							cs.Other = [][]string{}
+						}
+						obs, sig, class := judge(&cs)
+						c.Case(len(lm)+len(lp) > 0 && !strings.HasPrefix(class, "dontcare"))
+						c.Impl(1)
+						c.Step(0, int64(len(lm)+len(lp)))
+						if strings.HasPrefix(class, "dontcare") {
+							c.DontCare(class)
+						} else {
+							c.Outcome("two-sided|" + strings.SplitN(class, ":", 2)[0])
+						}
+						if sig != "" {
+							c.Violation(sig, "VerifyArtifacts disagrees with the specification's queue algorithm on "+describe(&cs), &cs, obs)
+						}
+					}
+				}
+			}
+			c.Step(1, 0)
+		}
+	}
 	if c.Thorough() {
 		// length-3 programs over the sub-alphabet on the 2-path universe, plus un-clean spellings
 		u2 := universe{Paths: []string{"a", "d/a"}, Hashes: hashesThorough}
@@ -443,7 +503,7 @@ func init() {
 	mcx.Register(&mcx.Driver{
 		ID: "C03", Run: run, Replay: replay,
 		Rule: "full product: every artifact configuration (materials x products x referenced-step artifacts, each path absent/h1/h2) of the path universe x every rule list " +
-			"(program) of length 0..2 over the rule alphabet (thorough: + length 3 over a 20-rule sub-alphabet, + two-algorithm hash objects, + un-clean path spellings) x {materials, products} side; " +
+			"(program) of length 0..2 over the rule alphabet (thorough: + length 3 over a 20-rule sub-alphabet, + two-algorithm hash objects, + un-clean path spellings) x {materials, products} side; plus both rule lists of one item at once (materials list <= 1 x products list <= 2 over 13 rules and the reverse) with a sha512-only hash value in the universe; " +
 			"one case = one VerifyArtifacts call, distinct by construction; non-trivial = non-empty rule list, at least one artifact, and the reference decides the case (not don't-care). " +
 			"states = artifact configurations, transitions = rules applied. In quick the item is a Step or an Inspection alternately ((config+list) parity); thorough runs both.",
 		Assumptions: []string{
